@@ -124,7 +124,7 @@ def check(ctx):
         comp = rr[2][0]
         a = ("iter", n("args"))
         ok = (comp[3][0][1] == n("args") and comp[2] == (
-            "ifexp", ("call", ("n", "hasattr"), (a, c("sum")), ()),
+            "phi", ("call", ("n", "hasattr"), (a, c("sum")), ()),
             ("call", ("a", a, "sum"), (), ()), a))
     ctx.ob("C02.R2", rs, "_reduced_sum reduces every argument with .sum() BEFORE adding "
                          "them", ok, detail=short(rr or ()), stmt="reduced_sum " + pretty(rr or ())[:160])
